@@ -46,7 +46,9 @@ CHUNK = 2000
 RULE = ("gen(seed): program tree of add_callback/spawn_callback/add_timeout(abs, timedelta)/"
         "call_later/call_at/remove_timeout/add_future/resolve ops (top level issued by the main "
         "coroutine between sleeps, nested ones from inside callbacks, bodies raise / return "
-        "failing futures / coroutines), then 0-3 run_sync calls (value, exception, future, "
+        "failing futures / coroutines / a decorated coroutine yielding a non-yieldable, exception types "
+        "Exception, gen.BadYieldError, InvalidStateError, KeyError, gen.Return, TimeoutError, OSError, "
+        "StopIteration; callbacks returning non-yieldable objects), then 0-3 run_sync calls (value, exception, future, "
         "timeout); constant clock skew, late/cost tapes, slow callbacks that advance the clock while "
         "they run (timeouts become due while still in the heap), deadlines drawn from a small set so "
         "that ties, overdue deadlines and crossing deadlines are common. "
@@ -96,8 +98,19 @@ except ImportError:
 
 DELAYS = [0, 0, 1, 1, 2, 3, 4, 5, 8, 16, 16, 32, 48]
 OVERDUE = [-1, -2, -16, -1000, -4000000]
-ENDS = ["ok", "ok", "ok", "ok", "raise", "raise", "value", "fut_ok", "fut_fail", "fut_late_fail",
-        "coro_ok", "coro_raise", "coro_sleep_raise", "fut_cancelled"]
+ENDS = ["ok", "ok", "ok", "ok", "raise", "raise", "value", "value", "fut_ok", "fut_fail",
+        "fut_late_fail", "coro_ok", "coro_raise", "coro_sleep_raise", "fut_cancelled", "gen_bad_yield"]
+# Base classes of the exceptions callbacks raise / store in the futures they return (body["x"]).
+# Every instance is of a per-callback subclass, so log records can be matched by type name.
+# Only Exception subclasses: the statement's "exceptions ... are logged" does not extend to
+# KeyboardInterrupt/SystemExit/CancelledError (BaseException), which are meant to propagate.
+# StopIteration cannot be stored in a future or raised out of a coroutine (PEP 479): raise-only.
+EXC_BASES = ["Exception", "BadYieldError", "InvalidStateError", "KeyError", "Return", "TimeoutError",
+             "OSError", "StopIteration"]
+# What a callback may return that is neither None nor yieldable (body["v"]): all of these are
+# ignored silently by the unchanged tree (convert_yielded raises BadYieldError, also for a list or
+# dict with a non-yieldable member); an empty list / dict is yieldable and resolves at once.
+VALUES = ["int", "str", "tuple", "list_of_int", "dict_of_int", "empty_list", "empty_dict", "object"]
 FUT_KINDS = ["pending", "pending", "done", "done", "failed", "cdone", "cpending"]
 SYNC_KINDS = ["none", "coro", "coro", "coro", "coro_raise", "raise_sync", "future", "task"]
 
@@ -130,6 +143,11 @@ def _gen_body(rng, ctx, depth, w, budget):
     end = rng.choice(ENDS) if rng.random() < w["bad"] else "ok"
     if end != "ok":
         body["end"] = end
+        if end in ("raise", "fut_fail", "fut_late_fail", "coro_raise", "coro_sleep_raise") \
+                and rng.random() < 0.6:
+            body["x"] = rng.randrange(1, len(EXC_BASES))
+        if end == "value":
+            body["v"] = rng.randrange(len(VALUES))
         if end in ("fut_late_fail", "coro_sleep_raise"):
             body["k"] = rng.choice([1, 2, 5])
     return body
@@ -320,6 +338,9 @@ def _walk(ops, out):
             if not isinstance(body, dict):
                 raise ValueError
             _walk(body.get("do", []), out)
+            if not isinstance(body.get("x", 0), int) or not isinstance(body.get("v", 0), int) \
+                    or body.get("x", 0) < 0 or body.get("v", 0) < 0:
+                raise ValueError
             if not isinstance(body.get("busy", 0), int) or not 0 <= body.get("busy", 0) <= 4096:
                 raise ValueError
             if k == "to" and not isinstance(op.get("d", 0), int):
@@ -375,11 +396,22 @@ def simplify(scn):
 _EXC = {}
 
 
-def exc_class(prefix, ident):
-    key = (prefix, ident)
+def _exc_base(x, raise_only_ok):
+    from tornado import gen
+    name = EXC_BASES[x % len(EXC_BASES)] if isinstance(x, int) else "Exception"
+    if name == "StopIteration":
+        return StopIteration if raise_only_ok else Exception
+    return {"Exception": Exception, "BadYieldError": gen.BadYieldError,
+            "InvalidStateError": asyncio.InvalidStateError, "KeyError": KeyError,
+            "Return": gen.Return, "TimeoutError": asyncio.TimeoutError, "OSError": OSError}[name]
+
+
+def exc_class(prefix, ident, x=0, raise_only_ok=False):
+    base = _exc_base(x, raise_only_ok)
+    key = (prefix, ident, base.__name__)
     c = _EXC.get(key)
     if c is None:
-        c = _EXC[key] = type("%s%d" % (prefix, ident), (Exception,), {})
+        c = _EXC[key] = type("%s%d" % (prefix, ident), (base,), {})
     return c
 
 
@@ -527,31 +559,54 @@ def _run_single(scn, full_log=False):
         loop.skew = scn.get("skew", 0) * UNIT
         rec = Recorder(env)
         box = {"io": None, "inside": 0}
+        ebase = {}  # expected exception type name -> name of its base class
 
         # ---- scheduling operations ------------------------------------
         def finish(ident, body):
             end = body.get("end", "ok")
+            x = body.get("x", 0)
             if end == "ok":
                 return None
             if end == "raise":
-                c = exc_class("Boom", ident)
+                c = exc_class("Boom", ident, x, True)
                 rec.expected_errors.append(c.__name__)
+                ebase[c.__name__] = c.__mro__[1].__name__
+                probe("raised_" + c.__mro__[1].__name__)
                 raise c("callback %d" % ident)
             if end == "value":
-                return 42
+                probe("returned_non_yieldable")
+                v = VALUES[body.get("v", 0) % len(VALUES)]
+                return {"int": 42, "str": "text", "tuple": (1, 2), "list_of_int": [1, 2],
+                        "dict_of_int": {"a": 1}, "empty_list": [], "empty_dict": {},
+                        "object": box}[v]
+            if end == "gen_bad_yield":
+                # a decorated coroutine that yields something unyieldable: its future fails
+                # with a plain tornado.gen.BadYieldError
+                rec.expected_errors.append("BadYieldError")
+                ebase["BadYieldError"] = "BadYieldError"
+                probe("future_failed_BadYieldError")
+
+                @gen.coroutine
+                def bad_yield():
+                    yield 42
+                return bad_yield()
             if end == "fut_ok":
                 f = Future(loop=loop)
                 f.set_result(1)
                 return f
             if end == "fut_fail":
-                c = exc_class("FBoom", ident)
+                c = exc_class("FBoom", ident, x)
                 rec.expected_errors.append(c.__name__)
+                ebase[c.__name__] = c.__mro__[1].__name__
+                probe("future_failed_" + c.__mro__[1].__name__)
                 f = Future(loop=loop)
                 f.set_exception(c("future of %d" % ident))
                 return f
             if end == "fut_late_fail":
-                c = exc_class("FBoom", ident)
+                c = exc_class("FBoom", ident, x)
                 rec.expected_errors.append(c.__name__)
+                ebase[c.__name__] = c.__mro__[1].__name__
+                probe("future_failed_" + c.__mro__[1].__name__)
                 f = Future(loop=loop)
                 loop.call_later(body.get("k", 1) * UNIT, f.set_exception, c("late future of %d" % ident))
                 return f
@@ -565,15 +620,19 @@ def _run_single(scn, full_log=False):
                     return 5
                 return co_ok()
             if end == "coro_raise":
-                c = exc_class("FBoom", ident)
+                c = exc_class("FBoom", ident, x)
                 rec.expected_errors.append(c.__name__)
+                ebase[c.__name__] = c.__mro__[1].__name__
+                probe("future_failed_" + c.__mro__[1].__name__)
 
                 async def co_raise():
                     raise c("coroutine of %d" % ident)
                 return co_raise()
             if end == "coro_sleep_raise":
-                c = exc_class("FBoom", ident)
+                c = exc_class("FBoom", ident, x)
                 rec.expected_errors.append(c.__name__)
+                ebase[c.__name__] = c.__mro__[1].__name__
+                probe("future_failed_" + c.__mro__[1].__name__)
                 k = body.get("k", 1)
 
                 async def co_sleep_raise():
@@ -956,7 +1015,9 @@ def _run_single(scn, full_log=False):
                 k = "callback" if name.startswith("Boom") else "future"
                 bad("error.not_logged", f"exception {name} raised by a {k} was logged "
                                         f"{got_c.get(name, 0)} times on tornado.application, expected "
-                                        f"{want[name]}", "error.not_logged/" + k)
+                                        f"{want[name]} (base class {ebase.get(name)})",
+                    "error.not_logged/" + k + ("" if ebase.get(name, "Exception") == "Exception"
+                                               else "/" + ebase[name]))
         for name in sorted(got_c):
             if got_c[name] > want.get(name, 0):
                 bad("error.unexpected_log", f"tornado.application ERROR with {name} x{got_c[name]}, "
